@@ -1,6 +1,7 @@
 import Tahoe.Immutable.LemmasChain
 import Tahoe.Base.LemmasMerkleComplete
 import Tahoe.Base.LemmasMerkleClosed
+import Tahoe.Base.LemmasMerkleMinimal
 import Tahoe.Immutable.LemmasBlocks
 /-! Completeness direction (C45 "readable from the repaired shares"): the crypttext-hash stage of the downloader
     accepts the genuine hashes (C35 completeness), and repaired shares are the uploader's shares. -/
@@ -625,5 +626,44 @@ theorem stageBlockRoot_fresh (E : Env H) (cfg : Cfg) (pick : List Nat → Nat) (
   simp only [truthyOpt]
   rw [hr]
   simp
+
+omit [DecidableEq H] in
+/-- in a closed, sibling-closed tree a held leaf has its whole uncle chain held: nothing is requested for it -/
+theorem held_leaf_needs_nothing {t : Tree H} (hc : Closed t) (hsc : SibClosed t) {first segnum : Nat}
+    (hL : first + segnum < t.length) (hheld : get t (first + segnum) ≠ none) :
+    neededHashes? t first segnum true = some [] := by
+  have hneeded : neededHashes? t first segnum true =
+      some ((neededFor (first + segnum) ++ [first + segnum]).filter (fun i => (get t i).isNone)) := by
+    unfold neededHashes? completeNeededHashes? neededFor?
+    have : ¬ (first + segnum ≥ t.length) := by omega
+    simp [this]
+  rw [hneeded]
+  congr 1
+  apply List.filter_eq_nil_iff.mpr
+  intro i hi
+  have hknown : get t i ≠ none := by
+    cases List.mem_append.mp hi with
+    | inl h =>
+      obtain ⟨c, hanc, hc0, e⟩ := mem_neededFor.mp h
+      rw [e]
+      exact hsc c hc0 (known_above hc hsc hanc hheld)
+    | inr h =>
+      have : i = first + segnum := by simpa using h
+      rw [this]; exact hheld
+  cases hg : get t i with
+  | none => exact absurd hg hknown
+  | some w => simp
+
+/-- `_satisfy_ciphertext_hash_tree` when the segment's crypttext leaf is already held (another share was asked first) -/
+theorem stageCtHashes_held_leaf (E : Env H) (cfg : Cfg) (pick : List Nat → Nat) (segnum : Nat) (v : View H)
+    (nd : Node H) {u : UEB H} {sz : Sizes} (hk : nd.known = some (u, sz))
+    (hc : Closed nd.ctTree) (hsc : SibClosed nd.ctTree)
+    (hL : firstLeafNum sz.numSegs + segnum < nd.ctTree.length)
+    (hheld : get nd.ctTree (firstLeafNum sz.numSegs + segnum) ≠ none) :
+    stageCtHashes E cfg pick segnum v nd = (none, nd) := by
+  unfold stageCtHashes
+  rw [hk]
+  simp only
+  rw [held_leaf_needs_nothing hc hsc hL hheld]
 
 end Tahoe.Integrity
